@@ -353,8 +353,8 @@ func (i *Domain) approximateStamp(
 	// Edge case: end timestamps are split between two different files, so we must go
 	// back to read the lower bound.
 	if !iter.Prev() {
-		i.L.DPanic("iterator prev failed in stamp")
-		return TimeStampApproximation{}, NewDiscontinuousOffsetError(endOffset, effectiveDomainLen)
+		// No earlier domain: the lower bound lies before all data.
+		return Between(telem.TimeStampMin, upperTS), nil
 	}
 	if err = r.Close(); err != nil {
 		return TimeStampApproximation{}, err
@@ -430,7 +430,7 @@ func (i *Domain) backwardStamp(
 	}
 
 	totalTraversed := domainLen
-	if endOffset >= domainLen {
+	if endOffset > domainLen {
 		for {
 			if !iter.Prev() {
 				if continuous {
